@@ -75,6 +75,17 @@ var targets = []string{
 	"RouterJSR311.selectRoutes",
 	"RouterJSR311.detectDispatcher",
 	"RouterJSR311.SelectRoute",
+	"CrossOriginResourceSharing.isOriginAllowed",
+	"CrossOriginResourceSharing.isValidAccessControlRequestMethod",
+	"CrossOriginResourceSharing.isValidAccessControlRequestHeader",
+	"CrossOriginResourceSharing.checkAndSetExposeHeaders",
+	"CrossOriginResourceSharing.checkAndSetAllowCredentials",
+	"CrossOriginResourceSharing.setAllowOriginHeader",
+	"CrossOriginResourceSharing.setOptionsHeaders",
+	"CrossOriginResourceSharing.doActualRequest",
+	"CrossOriginResourceSharing.doPreflightRequest",
+	"CrossOriginResourceSharing.Filter",
+	"Container.OPTIONSFilter",
 }
 
 // fuel: bound of the `for { … }` loops of a function, as a Go expression over its parameters
@@ -92,6 +103,8 @@ var externs = map[string]string{
 	"isMatchCustomVerb":  "Str → Str → Bool",
 	"removeCustomVerb":   "Str → Str",
 	"strings.TrimSpace":  "Str → Str",
+	"strings.ToLower":    "Str → Str",
+	"strconv.Itoa":       "Int → Str",
 }
 
 var fset = token.NewFileSet()
@@ -133,6 +146,7 @@ var funcFile = map[string]string{}                  // -> file:line
 var structFields = map[string]map[string]ast.Expr{} // struct -> field -> type
 var constVals = map[string]ast.Expr{}               // package constants with a literal value
 var pkgVars = map[string]ast.Expr{}                 // package variables: name -> declared type or initial value
+var pkgVarTypes = map[string]ast.Expr{}             // package variables with a declared type
 var isTarget = map[string]bool{}
 var extUsed = map[string]string{} // Ext field -> Lean type
 
@@ -823,6 +837,9 @@ func (t *tr) stmt(ind int, s ast.Stmt) {
 		}
 		t.assign(ind, x.X, fmt.Sprintf("%s %s (1 : Int)", v, op))
 	case *ast.ExprStmt:
+		if c, ok := x.X.(*ast.CallExpr); ok && t.effectStmt(ind, c) {
+			return
+		}
 		// buffer.WriteString(e)
 		if c, ok := x.X.(*ast.CallExpr); ok {
 			if sel, ok := c.Fun.(*ast.SelectorExpr); ok {
@@ -906,6 +923,13 @@ func (t *tr) stmt(ind int, s ast.Stmt) {
 			fail("%s", x.Tok)
 		}
 	case *ast.ReturnStmt:
+		if len(x.Results) == 0 && len(t.named) == 0 && len(mutates[t.key]) > 0 {
+			t.line(ind, "return %s", tuple(t.mutNames()))
+			return
+		}
+		if len(mutates[t.key]) > 0 && len(t.results) > len(mutates[t.key]) {
+			fail("results next to changed parameters")
+		}
 		if len(x.Results) == 0 {
 			if len(t.named) == 0 {
 				fail("bare return without named results")
@@ -946,6 +970,18 @@ func (t *tr) stmt(ind int, s ast.Stmt) {
 	default:
 		fail("statement %T", s)
 	}
+}
+
+func (t *tr) mutNames() []string {
+	var ns []string
+	for _, m := range mutates[t.key] {
+		if t.sc.has(m) {
+			ns = append(ns, t.lname(m))
+		} else {
+			ns = append(ns, mangle(m))
+		}
+	}
+	return ns
 }
 
 func tuple(vs []string) string {
@@ -1007,6 +1043,24 @@ func (t *tr) assignStmt(ind int, x *ast.AssignStmt) {
 							v, _ := t.structLit(cl, st, true)
 							t.declare(ind, id.Name, v, false)
 							t.setType(id.Name, cl.Type)
+							return
+						}
+					}
+				}
+			}
+			// x.f = e on a struct parameter (a pointer parameter must be listed in `mutates`)
+			if sel, ok := x.Lhs[0].(*ast.SelectorExpr); ok && x.Tok == token.ASSIGN {
+				if id, ok := sel.X.(*ast.Ident); ok {
+					if pt, isP := t.paramStruct[id.Name]; isP {
+						if st, _ := structName(pt); st != "" && isGenStruct[st] {
+							t.changed(id.Name)
+							useField(st, sel.Sel.Name)
+							v, _ := t.expr(x.Rhs[0])
+							if _, ptr := structName(pt); ptr {
+								t.line(ind, "%s := some { (← deref %s) with %s := %s }", mangle(id.Name), mangle(id.Name), mangle(sel.Sel.Name), v)
+							} else {
+								t.line(ind, "%s := { %s with %s := %s }", mangle(id.Name), mangle(id.Name), mangle(sel.Sel.Name), v)
+							}
 							return
 						}
 					}
@@ -1247,7 +1301,7 @@ func translate(key string) (text string, why string) {
 	}
 	for _, p := range fd.Type.Params.List {
 		lt := leanType(p.Type)
-		if st, _ := structName(p.Type); st != "" && (flat || !isGenStruct[st]) {
+		if st, _ := structName(p.Type); st != "" && (flat || !isGenStruct[st]) && effectTypes[src(p.Type)] == "" {
 			lt = "" // flattened into the fields that are read
 		}
 		for _, n := range p.Names {
@@ -1275,8 +1329,11 @@ func translate(key string) (text string, why string) {
 			params = append(params, fmt.Sprintf("(%s : %s)", mangle(n.Name), lt))
 		}
 	}
-	if fd.Type.Results == nil {
+	if fd.Type.Results == nil && len(mutates[key]) == 0 {
 		fail("no result")
+	}
+	if fd.Type.Results == nil {
+		fd.Type.Results = &ast.FieldList{}
 	}
 	body := &bytes.Buffer{}
 	t.out = body
@@ -1304,7 +1361,48 @@ func translate(key string) (text string, why string) {
 			}
 		}
 	}
+	if len(mutates[key]) > 0 && len(t.results) == 0 {
+		// the final values of the changed parameters are the result
+		for _, m := range mutates[key] {
+			var ty ast.Expr
+			if m == t.recv && fd.Recv != nil {
+				ty = fd.Recv.List[0].Type
+			}
+			for _, p := range fd.Type.Params.List {
+				for _, n := range p.Names {
+					if n.Name == m {
+						ty = p.Type
+					}
+				}
+			}
+			if ty == nil || leanType(ty) == "" {
+				fail("changed parameter %s", m)
+			}
+			t.results = append(t.results, leanType(ty))
+		}
+	}
+	// struct parameters and logs are re-bound mutably: the body may change them
+	var pnames []string
+	for n := range t.paramStruct {
+		pnames = append(pnames, n)
+	}
+	sort.Strings(pnames)
+	for _, n := range pnames {
+		if len(mutates[key]) > 0 {
+			t.line(2, "let mut %s := %s", mangle(n), mangle(n))
+		}
+	}
+	for _, p := range fd.Type.Params.List {
+		if _, isEff := effectTypes[src(p.Type)]; isEff {
+			for _, n := range p.Names {
+				t.line(2, "let mut %s := %s", mangle(n.Name), mangle(n.Name))
+			}
+		}
+	}
 	t.stmts(2, fd.Body.List)
+	if len(mutates[key]) > 0 && len(t.named) == 0 && len(fd.Type.Results.List) == 0 {
+		t.line(2, "return %s", tuple(t.mutNames()))
+	}
 	t.pop()
 	flatExtras[key] = t.extras
 	var extras []string
@@ -1394,6 +1492,7 @@ func main() {
 								}
 							} else if x.Tok == token.VAR {
 								if s.Type != nil {
+									pkgVarTypes[n.Name] = s.Type
 									pkgVars[n.Name] = s.Type
 								} else if i < len(s.Values) {
 									pkgVars[n.Name] = s.Values[i]
